@@ -1118,14 +1118,39 @@ def ref_trace(ctx: Ctx) -> RuleResult:
     r.require(len(loop) == 1 and isinstance(loop[0].iter, ast.Call) and dotted(loop[0].iter.func) == "enumerate", "make_args: enumerate loop not found")
     iv, av = [dotted(x) for x in loop[0].target.elts]
     cond = [n for n in loop[0].body if isinstance(n, ast.If)]
-    okc = len(cond) == 1 and norm_src(cond[0].test) == f"not isinstance({av}, UsageExecNode)"
     mk = [n for n in ast.walk(loop[0]) if isinstance(n, ast.Call) and dotted(n.func) == "make_default_value_uxn"]
     oki = len(mk) == 1 and len(mk[0].args) == 3 and dotted(mk[0].args[1]) == iv and dotted(mk[0].args[2]) == av
-    app = [n for n in loop[0].body if isinstance(n, ast.Expr) and isinstance(n.value, ast.Call) and isinstance(n.value.func, ast.Attribute)
-           and n.value.func.attr == "append" and dotted(n.value.args[0]) == av]
-    r.ob(okc and oki and len(app) == 1, {"make_args": "constants -> holders keyed by position; appended in call order"})
+    is_ref, not_ref = f"isinstance({av}, UsageExecNode)", f"not isinstance({av}, UsageExecNode)"
+
+    def _appends(stmts):
+        return [n for n in stmts if isinstance(n, ast.Expr) and isinstance(n.value, ast.Call) and isinstance(n.value.func, ast.Attribute)
+                and n.value.func.attr == "append" and n.value.args]
+
+    okc = False
+    app = []
+    if len(cond) == 1 and norm_src(cond[0].test) == not_ref and not cond[0].orelse:
+        # layout 1: a constant is replaced by its holder, then the (possibly replaced) value is appended
+        okc = True
+        app = [n for n in _appends(loop[0].body) if dotted(n.value.args[0]) == av]
+    elif len(cond) == 1 and norm_src(cond[0].test) in (is_ref, not_ref) and cond[0].orelse and not _appends(loop[0].body):
+        # layout 2: each arm appends - the reference itself / the holder of the constant
+        ref_arm, const_arm = (cond[0].body, cond[0].orelse) if norm_src(cond[0].test) == is_ref else (cond[0].orelse, cond[0].body)
+        ra, ca = _appends(ref_arm), _appends(const_arm)
+        okc = len(ra) == 1 and dotted(ra[0].value.args[0]) == av and len(ca) == 1 and any(ca[0].value.args[0] is m_ for m_ in mk)
+        app = ra + ca if okc else []
+    elif not cond:
+        # layout 3: one append of a conditional expression
+        aps = _appends(loop[0].body)
+        if len(aps) == 1 and isinstance(aps[0].value.args[0], ast.IfExp):
+            e_ = aps[0].value.args[0]
+            t_ = norm_src(e_.test)
+            r_, c_ = (e_.body, e_.orelse) if t_ == is_ref else (e_.orelse, e_.body)
+            okc = t_ in (is_ref, not_ref) and dotted(r_) == av and any(c_ is m_ for m_ in mk)
+            app = aps if okc else []
+            cond = [aps[0]] if not okc else []
+    r.ob(okc and oki and len(app) >= 1, {"make_args": "constants -> holders keyed by position; appended in call order"})
     if cond and not okc:
-        r.violate("make_args: the test deciding 'constant or reference' changed", g.loc(cond[0]), "", norm_src(cond[0].test))
+        r.violate("make_args: the test deciding 'constant or reference' changed", g.loc(cond[0]), "", norm_src(getattr(cond[0], "test", cond[0])))
     if mk and not oki:
         r.violate("make_args: the constant holder is not keyed by the argument's own position / value", g.loc(mk[0]),
                   "two constants of one call would share a holder or carry the wrong value", norm_src(mk[0]))
@@ -1837,6 +1862,74 @@ def ref_spliceall(ctx: Ctx) -> RuleResult:
     return r
 
 
+def ref_argorder(ctx: Ctx) -> RuleResult:
+    """Positional arguments keep their positions: the functions that turn the `*args` of a call into a list of references
+    (make_args for a node, construct_subdag_arg_uxns for a nested DAG) start from an empty list and append exactly one reference per
+    argument, inside one loop over the arguments - a list pre-filled with 'the references first' or a skipped append shifts every
+    later argument into another parameter."""
+    r = RuleResult("REF-ARGORDER")
+    n_fn = 0
+    for name in ("make_args", "construct_subdag_arg_uxns"):
+        gs = [g for g in pkg_funcs(ctx) if g.name == name and g.cls is None]
+        if len(gs) != 1:
+            continue
+        g = gs[0]
+        va = g.node.args.vararg.arg if g.node.args.vararg else None
+        comp = [n for n in iter_own_nodes(g.node) if isinstance(n, ast.Return) and isinstance(n.value, ast.ListComp)]
+        if va is not None and len(comp) == 1 and len(comp[0].value.generators) == 1 and va in names_in(comp[0].value.generators[0].iter):
+            # one comprehension over the arguments: one element per argument by construction - unless it filters
+            n_fn += 1
+            flt = comp[0].value.generators[0].ifs
+            r.ob(not flt, {"in": g.short, "one comprehension over the arguments, unfiltered": not flt})
+            if flt:
+                r.violate(f"{g.short}: the comprehension over the arguments filters them ({norm_src(flt[0])})", g.loc(comp[0]),
+                          "a skipped argument shifts every later argument into another parameter", norm_src(flt[0]))
+            continue
+        rets = [n for n in iter_own_nodes(g.node) if isinstance(n, ast.Return) and isinstance(n.value, ast.Name)]
+        if va is None or len(rets) != 1:
+            continue
+        L = rets[0].value.id
+        n_fn += 1
+        defs = [n for n in iter_own_nodes(g.node) if isinstance(n, (ast.Assign, ast.AnnAssign)) and dotted(n.targets[0] if isinstance(n, ast.Assign) else n.target) == L]
+        empty = len(defs) == 1 and defs[0].value is not None and ((isinstance(defs[0].value, ast.List) and not defs[0].value.elts)
+                                                                     or (isinstance(defs[0].value, ast.Call) and dotted(defs[0].value.func) == "list" and not defs[0].value.args))
+        loops = [n for n in g.node.body if isinstance(n, ast.For) and va in names_in(n.iter)]
+
+        def is_app(x: ast.AST) -> bool:
+            return isinstance(x, ast.Expr) and isinstance(x.value, ast.Call) and isinstance(x.value.func, ast.Attribute) \
+                and x.value.func.attr in ("append", "extend", "insert") and dotted(x.value.func.value) == L
+
+        def counts(block) -> Set[int]:
+            acc = {0}
+            for st in block:
+                if is_app(st):
+                    acc = {c + 1 for c in acc}
+                elif isinstance(st, ast.If):
+                    a_, b_ = counts(st.body), counts(st.orelse)
+                    acc = {c + d for c in acc for d in (a_ | b_)}
+                elif isinstance(st, (ast.Continue, ast.Break, ast.Return, ast.Raise)):
+                    return {c for c in acc} | {-100}  # marks an early exit from the iteration
+                elif any(is_app(x) for x in ast.walk(st)):
+                    return {-1}
+            return acc
+
+        outside = [x for x in iter_own_nodes(g.node) if is_app(x) and not any(any(x is y for y in ast.walk(lp)) for lp in loops)]
+        per_iter = counts(loops[0].body) if len(loops) == 1 else {-1}
+        ok = empty and len(loops) == 1 and not outside and per_iter == {1}
+        r.ob(ok, {"in": g.short, "list starts empty": empty, "appends per argument": sorted(per_iter), "appends outside the loop": len(outside)})
+        if not empty and defs:
+            r.violate(f"{g.short}: the list of references does not start empty ({norm_src(defs[0].value)[:60]})", g.loc(defs[0]),
+                      "elements placed before the loop occupy the first positions whatever the positions of the arguments they came from: "
+                      "scale(10, measure()) binds the node result to the first parameter and the constant to the second", norm_src(defs[0])[:100])
+        elif len(loops) == 1 and (per_iter != {1} or outside):
+            r.violate(f"{g.short}: not exactly one reference is appended per argument", g.loc(loops[0]),
+                      "an argument without its element (or with two) shifts every later argument into another parameter", sorted(per_iter))
+        elif len(loops) != 1:
+            raise Undecided(f"{g.short}: loop over the positional arguments not recognised")
+    r.require(n_fn >= 2, f"functions building a list of references from *args: {n_fn} recognised")
+    return r
+
+
 def ref_callid(ctx: Ctx) -> RuleResult:
     """Everything a call of a decorated function registers is keyed by the id of THAT call: the hidden nodes made for its positional,
     keyword and activation constants take the call's id (`<id><<n>>`), not the function's base id - otherwise two calls of one
@@ -1931,6 +2024,7 @@ def ref_kwname(ctx: Ctx) -> RuleResult:
 RULES = {
     "REF-KWNAME": ref_kwname,
     "REF-CALLID": ref_callid,
+    "REF-ARGORDER": ref_argorder,
     "REF-SPLICEALL": ref_spliceall,
     "VAL-SENTINEL": val_sentinel,
     "REF-SETUPOUT": ref_setupout,
